@@ -131,8 +131,9 @@ SIZEOF = {"int32_t": 4, "DifferenceType": 4, "int": 4, "uint32_t": 4, "uint16_t"
 
 
 class Fn:
-    def __init__(self, node, consts, spec, known):
+    def __init__(self, node, consts, spec, known, resolve=None):
         self.node = node
+        self.resolve = resolve  # callable(name) -> None: translate a callee on demand (registers it in `known`)
         self.consts = consts  # enum constants name -> int
         self.spec = spec  # param -> int
         self.known = known  # translated function names -> (lean name, params)
@@ -238,6 +239,8 @@ class Fn:
             while callee["kind"] in ("ImplicitCastExpr", "ParenExpr"):
                 callee = callee["inner"][0]
             cname = (callee.get("referencedDecl") or {}).get("name")
+            if cname not in self.known and self.resolve is not None:
+                self.resolve(cname)
             if cname not in self.known:
                 raise TransError("call to untranslated function %s" % cname)
             lname, cparams, ckind, cspec, _full = self.known[cname]
@@ -398,7 +401,8 @@ class Fn:
                 name = d["name"]
                 init = d.get("inner", [None])[-1] if d.get("inner") else None
                 if init is None:
-                    raise TransError("uninitialised local %s" % name)
+                    # declared now, assigned later (typically in both branches of the next `if`): nothing to bind yet
+                    continue
                 q = (d.get("type") or {}).get("qualType", "")
                 if "*" in q:
                     self.ignored_locals.add(name)  # pointer locals (e.g. config pointer): members read through them become parameters
@@ -448,7 +452,10 @@ class Fn:
             saved = dict(self.locals)
 
             def tup():
-                return "(" + ", ".join(self.locals[v].lean() if v in self.locals else v for v in vars_) + ")" if len(vars_) > 1 else (self.locals[vars_[0]].lean())
+                for v in vars_:
+                    if v not in self.locals:
+                        raise TransError("local %s is not assigned on every path" % v)
+                return "(" + ", ".join(self.locals[v].lean() for v in vars_) + ")" if len(vars_) > 1 else (self.locals[vars_[0]].lean())
 
             a = self.block(thn, tup)
             self.locals = dict(saved)
@@ -518,48 +525,168 @@ def load_ast(path, lang, fname):
     return cands[-1]
 
 
-def translate_all(consts):
+SNAPSHOT = os.path.join(os.path.dirname(os.path.abspath(__file__)), "purefns_snapshot.json")
+
+
+def translate_all(consts, snapshot=None):
+    """returns (defs, meta, failed, notes): defs = [(lean name, text, is_aux)], failed = {C name: reason}.
+    A target that cannot be translated does not stop the others; callers of it are translated against its snapshot signature."""
+    notes = []
     for path, rx in CALLSITE_CHECKS:
         src = open(os.path.join(REPO, path), encoding="utf-8-sig", errors="replace").read()
         if not re.search(rx, src):
-            raise TransError("call site that justifies a specialisation not found: %s in %s" % (rx, path))
+            notes.append("the call site that justifies a specialisation is no longer found textually (%s in %s): the specialised parameter value is tied by the correspondence runs only" % (rx, path))
+    snap = {e["c"]: e for e in (snapshot or [])}
     known = {}
-    out = []
+    defs = []
     meta = []
-    for fname, path, lang, spec, lname in TARGETS:
-        node = load_ast(path, lang, fname)
-        spec_v = {}
-        for p, cexpr in spec.items():
-            if cexpr not in consts:
-                raise TransError("specialisation constant %s not extracted" % cexpr)
-            spec_v[p] = consts[cexpr]
-        fn = Fn(node, consts, spec_v, known)
+    failed = {}
+    by_name = {t[0]: t for t in TARGETS}
+    done = set()
+
+    def do_target(fname):
+        if fname in done:
+            return
+        done.add(fname)
+        _, path, lang, spec, lname = by_name[fname]
         lean_name = lname or fname
-        text, params = fn.translate(lean_name)
-        known[fname] = (lean_name, params, fn.ret_kind, spec_v, fn.params_full)
-        out.append(text)
-        meta.append({"c": fname, "lean": lean_name, "file": path, "params": params, "ret": fn.ret_kind, "spec": spec_v})
-    return out, meta
+        aux_before = len(defs)
+
+        def resolve(cname, path=path, lang=lang):
+            if cname in known:
+                return
+            if cname in by_name:
+                do_target(cname)   # a target that is defined further down in the list
+                return
+            node = load_ast(path, lang, cname)
+            f2 = Fn(node, consts, {}, known, resolve)
+            t2, p2 = f2.translate(cname)
+            known[cname] = (cname, p2, f2.ret_kind, {}, f2.params_full)
+            defs.append((cname, t2, True))
+        try:
+            node = load_ast(path, lang, fname)
+            spec_v = {}
+            for p, cexpr in spec.items():
+                if cexpr not in consts:
+                    raise TransError("specialisation constant %s not extracted" % cexpr)
+                spec_v[p] = consts[cexpr]
+            fn = Fn(node, consts, spec_v, known, resolve)
+            text, params = fn.translate(lean_name)
+            known[fname] = (lean_name, params, fn.ret_kind, spec_v, fn.params_full)
+            defs.append((lean_name, text, False))
+            meta.append({"c": fname, "lean": lean_name, "file": path, "params": params, "ret": fn.ret_kind, "spec": spec_v, "params_full": fn.params_full, "text": text})
+        except TransError as e:
+            failed[fname] = str(e)
+            if fname in snap:
+                se = snap[fname]
+                known[fname] = (se["lean"], se["params"], se["ret"], se["spec"], se["params_full"])
+
+    for t in TARGETS:
+        do_target(t[0])
+    order = {t[0]: i for i, t in enumerate(TARGETS)}
+    meta.sort(key=lambda m: order[m["c"]])
+    return defs, meta, failed, notes
+
+
+EQUIV_TACTIC = """  intros
+  first
+    | rfl
+    | (simp only [%(defs)s]; done)
+    | (simp only [%(defs)s]; omega)
+    | (simp only [%(defs)s]; split <;> (try split) <;> (try split) <;> omega)
+    | (simp only [%(defs)s, Bool.and_eq_true, bne_iff_ne, decide_eq_true_eq, Bool.or_eq_true, beq_iff_eq]; rw [Bool.eq_iff_iff]; simp only [Bool.and_eq_true, bne_iff_ne, decide_eq_true_eq, Bool.or_eq_true, beq_iff_eq, ne_eq]; omega)
+    | (simp only [%(defs)s]; grind)"""
+
+
+def compose(defs, meta, failed, notes, snapshot):
+    """the generated file: the definitions the theorems are stated for (= the snapshot of the last translation they were checked
+    against), and - where today's translation of the current source reads differently - today's definitions in `namespace Regen`
+    together with a machine-checked proof that they are the same functions.  A target the translator cannot handle today keeps its
+    snapshot definition; its tie to the code is then the differential validation (tools/transval.py) alone."""
+    snap = {e["c"]: e for e in snapshot}
+    new = {m["c"]: m for m in meta}
+    out = ["/- GENERATED by tools/ctrans.py from the C sources in /repo — do not edit; regenerated on every run. -/", "namespace Utcp.Gen", ""]
+    for e in snapshot:
+        out.append(e["text"])
+    changed = []
+    for fname, _, _, _, _ in TARGETS:
+        if fname in new and fname in snap and new[fname]["text"] != snap[fname]["text"]:
+            if sorted(new[fname]["params"]) != sorted(snap[fname]["params"]) or new[fname]["ret"] != snap[fname]["ret"]:
+                failed[fname] = "the translated signature changed (%s -> %s)" % (snap[fname]["params"], new[fname]["params"])
+            else:
+                changed.append(fname)
+    for fname in failed:
+        notes.append("%s: the translator cannot handle the current source text (%s); the definition the theorems use is the last translated one and its tie to the code is the differential validation of this run" % (fname, failed[fname]))
+    if changed:
+        out.append("/-! today's translation reads differently for: %s -/" % ", ".join(changed))
+        out.append("set_option linter.unusedSimpArgs false\nnamespace Regen\n")
+        names = []
+        failed_lean = {snap[f]["lean"] for f in failed if f in snap}
+        for lean_name, text, is_aux in defs:
+            if lean_name in failed_lean:
+                continue
+            out.append(text)
+            names.append(lean_name)
+        for fname in failed:
+            if fname in snap:
+                out.append(snap[fname]["text"])
+                names.append(snap[fname]["lean"])
+        out.append("end Regen\n")
+        alldefs = ", ".join(["Regen." + nme for nme in names] + [e["lean"] for e in snapshot])
+        for fname in changed:
+            m = new[fname]
+            ps = snap[fname]["params"]
+            binder = ("(" + " ".join(ps) + " : Int) ") if ps else ""
+            out.append("/-- today's translation of `%s` is the function the theorems are about -/" % fname)
+            out.append("theorem regen_%s %s: Regen.%s %s = %s %s := by\n%s\n" % (m["lean"], binder, m["lean"], " ".join(m["params"]), m["lean"], " ".join(ps), EQUIV_TACTIC % {"defs": alldefs}))
+            notes.append("%s: today's translation of the current source reads differently from the definition the theorems were written for; theorem Utcp.Gen.regen_%s (checked this run) shows they are the same function" % (fname, m["lean"]))
+    out.append("end Utcp.Gen\n")
+    return "\n".join(out)
 
 
 def main():
     sys.path.insert(0, os.path.dirname(os.path.abspath(__file__)))
     import extract
     consts = extract.extract_consts()
-    try:
-        defs, meta = translate_all(consts)
-    except TransError as e:
-        print("ctrans: cannot translate: %s" % e, file=sys.stderr)
+    snapshot = json.load(open(SNAPSHOT)) if os.path.exists(SNAPSHOT) else None
+    defs, meta, failed, notes = translate_all(consts, snapshot)
+    if "--snapshot" in sys.argv[1:]:
+        if failed:
+            print("ctrans: cannot take a snapshot, untranslatable: %s" % failed, file=sys.stderr)
+            sys.exit(2)
+        json.dump(meta, open(SNAPSHOT, "w"), indent=1)
+        snapshot = meta
+    if snapshot is None:
+        print("ctrans: no snapshot (tools/purefns_snapshot.json); run ctrans.py --snapshot on a tree the proofs were checked against", file=sys.stderr)
         sys.exit(2)
-    text = "/- GENERATED by tools/ctrans.py from the C sources in /repo — do not edit; regenerated on every run. -/\nnamespace Utcp.Gen\n\n" + "\n".join(defs) + "\nend Utcp.Gen\n"
+    missing = [f for f in failed if f not in {e["c"] for e in snapshot}]
+    if missing:
+        print("ctrans: cannot translate: %s" % {f: failed[f] for f in missing}, file=sys.stderr)
+        sys.exit(2)
+    if "--direct" in sys.argv[1:]:
+        # second chance after an equivalence theorem did not go through: today's translations ARE the definitions (targets the
+        # translator cannot handle keep their snapshot text); the property theorems are then re-checked against them directly
+        today = {m["c"]: m for m in meta}
+        snapshot = [today.get(e["c"], e) for e in snapshot]
+        aux = [(nme, t) for nme, t, is_aux in defs if is_aux]
+        text = compose([], [], failed, notes, snapshot)
+        if aux:
+            text = text.replace("namespace Utcp.Gen\n", "namespace Utcp.Gen\n\n" + "\n".join(t for _, t in aux), 1)
+        notes.append("the generated definitions are today's translations (direct mode)")
+    else:
+        text = compose(defs, meta, failed, notes, snapshot)
     out = os.path.join(VERIF, "lean", "Utcp", "Gen", "PureFns.lean")
-    if len(sys.argv) > 1 and sys.argv[1] == "--print":
+    if "--print" in sys.argv[1:]:
         print(text)
         return
     old = open(out).read() if os.path.exists(out) else None
     if old != text:
         open(out, "w").write(text)
-    json.dump(meta, open(os.path.join(VERIF, "build", "purefns.meta.json"), "w"), indent=1)
+    os.makedirs(os.path.join(VERIF, "build"), exist_ok=True)
+    json.dump([{k: v for k, v in e.items() if k != "text"} for e in snapshot], open(os.path.join(VERIF, "build", "purefns.meta.json"), "w"), indent=1)
+    json.dump(notes, open(os.path.join(VERIF, "build", "regen_notes_ctrans.json"), "w"), indent=1)
+    for nt in notes:
+        print("ctrans: NOTE " + nt, file=sys.stderr)
 
 
 if __name__ == "__main__":
